@@ -6,6 +6,7 @@ package main
 
 import (
 	"fmt"
+	"os"
 	"strings"
 
 	"pgregory.net/rapid"
@@ -14,6 +15,7 @@ import (
 type stdVariant struct {
 	Name       string
 	Keep       string
+	KeepEnv    string // KEEP_NEXT_HOP_ROUTE in the environment while the service starts
 	Default    bool
 	MustRR     [3]string
 	NoReceived [3]string
@@ -74,7 +76,13 @@ func newStdSvc(v stdVariant) (*stdSvc, error) {
 	if v.Default {
 		cfg.Routes = append(cfg.Routes, labRouteCfg{Dests: []string{"default"}, Protocol: "udp", NextHop: ip(22)})
 	}
-	if err := in.start(cfg); err != nil {
+	cfg.KeepEnv = v.KeepEnv
+	if v.KeepEnv != "" {
+		os.Setenv("KEEP_NEXT_HOP_ROUTE", v.KeepEnv)
+	}
+	err := in.start(cfg)
+	os.Unsetenv("KEEP_NEXT_HOP_ROUTE")
+	if err != nil {
 		return nil, err
 	}
 	s.model = newModel(cfg)
@@ -96,6 +104,12 @@ func newStdSvc(v stdVariant) (*stdSvc, error) {
 			add(in.hub.udpEP(fmt.Sprintf("hop%d-udp", d), ip(d), p))
 			add(in.hub.tcpEP(fmt.Sprintf("hop%d-tcp", d), ip(d), p))
 		}
+	}
+	// endpoints where near-miss Route entries lead (C13)
+	for _, ap := range []struct {
+		d, p int
+	}{{1, 5099}, {2, 5099}, {3, 5099}, {2, 5060}, {3, 5060}, {60, 5062}, {60, 5063}, {60, 5064}} {
+		add(in.hub.udpEP(fmt.Sprintf("nearmiss%d", ap.d), ip(ap.d), ap.p))
 	}
 	for _, l := range cfg.Listens {
 		for _, b := range l.Backends {
